@@ -927,6 +927,46 @@ def doc_outcomes(ast, start, strict, removed=frozenset()):
     return (None if kinds else cur), kinds
 
 
+def ord_denote(path, start, strict, removed=frozenset()):
+    """spec `denOrd` on the real element tree: the depth-first reading of the compiled op list of
+    `path` with the precedence of errors made explicit — every error carries the number of slice
+    steps passed before it; the smallest depth wins, on a tie the first in sequence order.
+    Returns ("ok", [elements]) or ("err", depth, kind); navigation is the documented one
+    (doc_root / doc_parent / doc_child / list slicing), not Element.find."""
+    from flatland.schema import paths
+    ops = paths.tokenize(path)
+
+    def go(i, d, el):
+        while i < len(ops):
+            op, data = ops[i]
+            if op is paths.TOP:
+                el = doc_root(el, removed)
+            elif op is paths.UP:
+                el = doc_parent(el, removed)
+            elif op is paths.HERE:
+                pass
+            elif op is paths.NAME:
+                c = doc_child(el, data) if data is not None else None
+                if c is None:
+                    return ("err", d, "LookupError") if strict else ("ok", [])
+                el = c
+            else:
+                if data.step == 0:
+                    return ("err", d, "ValueError")
+                best, acc = None, []
+                for k in list(el.children)[data]:
+                    r = go(i + 1, d + 1, k)
+                    if r[0] == "err":
+                        if best is None or r[1] < best[1]:
+                            best = r
+                    else:
+                        acc.extend(r[1])
+                return best if best is not None else ("ok", acc)
+            i += 1
+        return ("ok", [el])
+    return go(0, 0, start)
+
+
 def single_of(strict, res):
     """res: {"list": [...]} or {"error": ...} -> the single=True observation"""
     if "error" in res:
